@@ -873,6 +873,86 @@ pub fn literals() -> Vec<Lit> {
             address: true,
         });
     }
+    // ---- every address body up to length 5 over the characters an address is made of, judged by a recogniser
+    // written from B.1.4.1 / B.1.4.3: '%' (I|Q|M) [X|B|W|D|L] integer {'.' integer}, integer = digit {['_'] digit};
+    // '%' (I|Q|M) '*'. What the recogniser takes has exactly its components; what it does not take is no address
+    // and must not come out as one
+    {
+        fn recognise(body: &str) -> Option<(char, &'static str, Vec<u128>)> {
+            let b = body.as_bytes();
+            let loc = *b.first()? as char;
+            if !matches!(loc, 'I' | 'Q' | 'M') {
+                return None;
+            }
+            if &body[1..] == "*" {
+                return Some((loc, "Unspecified", vec![]));
+            }
+            let mut i = 1;
+            let size = match b.get(1).map(|c| *c as char) {
+                Some('X') => "X",
+                Some('B') => "B",
+                Some('W') => "W",
+                Some('D') => "D",
+                Some('L') => "L",
+                _ => "Nil",
+            };
+            if size != "Nil" {
+                i = 2;
+            }
+            let mut comps = vec![];
+            loop {
+                // integer
+                if i >= b.len() || !b[i].is_ascii_digit() {
+                    return None;
+                }
+                let mut digits = String::new();
+                digits.push(b[i] as char);
+                i += 1;
+                loop {
+                    if i < b.len() && b[i].is_ascii_digit() {
+                        digits.push(b[i] as char);
+                        i += 1;
+                    } else if i + 1 < b.len() && b[i] == b'_' && b[i + 1].is_ascii_digit() {
+                        digits.push(b[i + 1] as char);
+                        i += 2;
+                    } else {
+                        break;
+                    }
+                }
+                comps.push(digits.parse::<u128>().ok()?);
+                if i == b.len() {
+                    return Some((loc, size, comps));
+                }
+                if b[i] != b'.' {
+                    return None;
+                }
+                i += 1;
+            }
+        }
+        let alpha = ['I', 'Q', 'X', 'W', '0', '1', '9', '.', '_', '*'];
+        let mut level: Vec<String> = vec![String::new()];
+        for _len in 0..5 {
+            let mut next = Vec::with_capacity(level.len() * alpha.len());
+            for b in &level {
+                for a in alpha {
+                    next.push(format!("{}{}", b, a));
+                }
+            }
+            for body in &next {
+                // the body starts with a location prefix (anything else after `AT %` is C04's and C08's business)
+                if !body.starts_with(['I', 'Q']) {
+                    continue;
+                }
+                let (expect, sort) = match recognise(body) {
+                    Some((loc, size, comps)) if comps.iter().all(|c| *c <= u32::MAX as u128) => (Expect::Value(n("Addr", vec![("loc", s(&loc.to_string())), ("size", s(size)), ("path", nt::l(comps.iter().map(|c| NT::I(*c, false)).collect()))])), "address"),
+                    Some(_) => (Expect::Reject("address component out of range"), "component>u32"),
+                    None => (Expect::Reject("no address"), "no-address"),
+                };
+                out.push(Lit { label: format!("address/body-sweep/{}", sort), type_text: "BOOL", pieces: vec![format!("%{}", body)], expect, address: true });
+            }
+            level = next;
+        }
+    }
     // ---- one underscore between two adjacent digits, at every such position of every literal that has a value
     // (B.1.2.1: integer = digit {['_'] digit}; every numeric part of a real, duration, date, time or address is an integer)
     let mut extra = vec![];
